@@ -97,7 +97,7 @@ AGGREGATORS = {
                        True),
     'count': Aggregator(lambda curr, new:
                         curr+1 if curr is not None else 1,
-                        identity,
+                        lambda value: value if value is not None else 0,
                         'integer',
                         False),
     'any': Aggregator(lambda curr, new: new,
@@ -130,6 +130,8 @@ def fix_fields(fields):
         spec = fields[field]
         if spec is None:
             fields[field] = spec = {}
+        # 'count' with an explicit source field counts that field's non-null values
+        spec.setdefault('count_field', 'name' in spec)
         if 'name' not in spec:
             spec['name'] = field
         if 'aggregate' not in spec:
@@ -205,7 +207,7 @@ def join_aux(source_name, source_key, source_delete,  # noqa: C901
                 name = spec['name']
                 curr = current.get(field)
                 agg = spec['aggregate']
-                if agg != 'count':
+                if agg != 'count' or spec.get('count_field'):
                     new = row.get(name)
                 else:
                     new = ''
